@@ -35,7 +35,9 @@ def subtree(feature: str, token: str, workdir: str) -> dict:
     v = 1 if token == "c1" else 2
     if feature == "perf":
         return {"perf": {"enabled": False,
-                         "t1": {"queue_cap": 3 * v, "dedupe_window": 2 * v, "cache": {"max_entries": v, "max_bytes": 100 * v}, "caps": {"frontier": v, "visited": v + 1}},
+                         # (the second variant lists the frontier cap alone: one inert knob at a time must be inert too)
+                         "t1": ({"queue_cap": 3 * v, "dedupe_window": 2 * v, "cache": {"max_entries": v, "max_bytes": 100 * v}, "caps": {"frontier": v, "visited": v + 1}}
+                                if v == 1 else {"caps": {"frontier": 1}}),
                          "t2": {"embed_store_dtype": "fp16", "precompute_norms": True, "cache": {"max_entries": v, "max_bytes": 64 * v},
                                 "reader": {"partitions": {"enabled": True, "layout": "owner_quarter", "path": os.path.join(workdir, "parts")}}},
                          "snapshots": {"compression": "zstd", "level": 3 + v, "delta_mode": True, "every_n_turns": 1 + v},
@@ -165,8 +167,12 @@ def run_pair(case) -> List[Tuple[str, str, str]]:
                 # a warm process: an earlier engine state in this process ran the same world with the perf gate OPEN and
                 # the very caps that the closed subtree lists; what it left in the process-global stage caches must not
                 # reach the run whose gate is closed (same prelude before A and before B)
+                # (the size-aware perf caches are a different cache object; the earlier state uses the ordinary stage
+                # caches, the ones a closed perf gate uses as well)
                 warm_cfg = E.deep_merge(copy.deepcopy(cfgA), {"perf": {"enabled": True, "metrics": {"report_memory": False},
-                                                                          "parallel": {"enabled": False}}})
+                                                                          "parallel": {"enabled": False},
+                                                                          "t1": {"cache": {"max_entries": 0, "max_bytes": 0}},
+                                                                          "t2": {"cache": {"max_entries": 0, "max_bytes": 0}}}})
                 w = Session(os.path.join(work, name + "_warm"), base_cfg=warm_cfg, graphs=graphs)
                 w.raw_cfg = True
                 w.state["graph"] = copy.deepcopy(gel)
@@ -250,7 +256,7 @@ def check(run) -> None:
     q = run.quick
     run.rule = ("every (gate vector, closed-subtree assignment) pair emitted by the exhaustively enumerated Gates model, concretised to validated "
                 "configurations and run for 3 turns on the real engine; distinct = distinct case")
-    consts = {"Tokens": ["c1"] if q else ["c1", "c2"], "MaxClosedCustom": 2 if q else 3}
+    consts = {"Tokens": ["c1", "c2"], "MaxClosedCustom": 2 if q else 3}
     cfg = make_cfg(consts, ["InertSubtree", "NoArtefact"], [], emit=False, view=None, constraint="EmitCase")
     res = run.tlc("Gates", cfg, name="Gates", workers=4, timeout_s=900)
     run.model_must_hold(res)
